@@ -179,7 +179,7 @@ class ChunkGen:
             if budget[0] <= 0:
                 break
             budget[0] -= 1
-            k = r.below(22)
+            k = r.below(26)
             if k < 4:
                 v = self.fresh("v")
                 self.emit_line(ind, "local %s = %s" % (v, self.expr(sc)))
@@ -278,6 +278,10 @@ class ChunkGen:
                 self.emit_line(ind, "emit(%s(2), %s(%s))" % (f, f, self.const()))
                 sc += [c, f]
                 self.h("st:counter-closure")
+            elif k in (22, 23) and depth < 3:
+                sc = self.captured_constants(ind, sc)
+            elif k in (24, 25) and depth < 2:
+                self.deep_error(ind, sc)
             elif k == 17 and depth < 3:
                 x = self.fresh("x")
                 self.emit_line(ind, "do")
@@ -309,6 +313,81 @@ class ChunkGen:
                     self.h("st:assign")
         return sc
 
+    def pool_const(self):
+        r = self.r
+        return r.choice([r.choice(self.strs), r.choice(self.flts), str(r.choice([x for x in self.ints if abs(x) > 40000] or [70001])),
+                         self.rand_str(), str(r.below(1 << 40) + 70000), r.choice(FLT_POOL)])
+
+    def captured_constants(self, ind, sc):
+        """locals that live in CELLS (captured by inner closures) and are initialised directly from a pooled
+        constant, from a function expression, or are a recursive `local function`: the constant / closure
+        load has a cell register as destination"""
+        r = self.r
+        sc = list(sc)
+        cs = [self.fresh("c") for _ in range(1 + r.below(3))]
+        for c in cs:
+            self.emit_line(ind, "local %s = %s" % (c, self.pool_const()))
+        g = self.fresh("g")
+        shape = r.below(4)
+        if shape == 0:
+            # recursive local function: the closure itself is loaded into a cell
+            self.emit_line(ind, "local function %s(k) if (tonumber(k) or 0) <= 0 then return %s end return %s(k - 1) end" % (g, ", ".join(cs), g))
+            self.emit_line(ind, "reg(%s)" % g)
+            self.emit_line(ind, "emit(%s(%d))" % (g, r.below(3)))
+        elif shape == 1:
+            # function expression stored in a captured local, then called through another closure
+            u = self.fresh("u")
+            self.emit_line(ind, "local %s = function(x) return x, %s end" % (g, ", ".join(cs)))
+            self.emit_line(ind, "local %s = function(...) return %s(...) end" % (u, g))
+            self.emit_line(ind, "reg(%s, %s)" % (g, u))
+            self.emit_line(ind, "emit(%s(%s))" % (u, self.const()))
+            sc.append(u)
+        elif shape == 2:
+            # captured and mutated: the constant initialises the cell, the closure overwrites it with another constant
+            self.emit_line(ind, "local %s = function() local old = %s; %s = %s; return old end" % (g, cs[0], cs[0], self.pool_const()))
+            self.emit_line(ind, "reg(%s)" % g)
+            self.emit_line(ind, "emit(%s(), %s(), %s)" % (g, g, ", ".join(cs)))
+        else:
+            # two levels: the constants are captured through an intermediate function
+            self.emit_line(ind, "local function %s() return function() return %s end end" % (g, ", ".join(cs)))
+            self.emit_line(ind, "reg(%s)" % g)
+            self.emit_line(ind, "emit(%s()())" % g)
+        self.h("st:captured-constants:shape%d" % shape)
+        return sc + cs + [g]
+
+    def deep_error(self, ind, sc):
+        """an error raised (or a runtime fault) inside a function nested at least two levels below the
+        enclosing function, called under pcall: message, chunk name and line must survive dump/load"""
+        r = self.r
+        a, b, c = self.fresh("d"), self.fresh("d"), self.fresh("d")
+        kind = r.below(5)
+        fault = ['error(%s)' % r.choice(self.strs[:3] + ['"deep"']),
+                 'error("lvl2", 2)',
+                 'local z = nil + r',
+                 'local z = (r)()',
+                 'error(%s .. tostring(tonumber(r) or type(r)))' % r.choice(self.strs[:2] + ['"e:"'])][kind]
+        depth3 = r.chance(1, 2)
+        self.emit_line(ind, "local function %s(p)" % a)
+        self.emit_line(ind + 1, "local function %s(q)" % b)
+        if depth3:
+            self.emit_line(ind + 2, "local function %s(r)" % c)
+            self.emit_line(ind + 3, fault)
+            self.emit_line(ind + 3, "return r")
+            self.emit_line(ind + 2, "end")
+            self.emit_line(ind + 2, "reg(%s)" % c)
+            self.emit_line(ind + 2, "return %s(q)" % c)
+        else:
+            self.emit_line(ind + 2, "local r = q")
+            self.emit_line(ind + 2, fault)
+            self.emit_line(ind + 2, "return r")
+        self.emit_line(ind + 1, "end")
+        self.emit_line(ind + 1, "reg(%s)" % b)
+        self.emit_line(ind + 1, "return %s(p)" % b)
+        self.emit_line(ind, "end")
+        self.emit_line(ind, "reg(%s)" % a)
+        self.emit_line(ind, "emit(pcall(%s, %s))" % (a, self.expr(sc)))
+        self.h("st:deep-error:depth%d:kind%d" % (3 if depth3 else 2, kind))
+
     def ret(self, ind, sc, vararg):
         r = self.r
         k = r.below(8)
@@ -332,6 +411,10 @@ class ChunkGen:
         self.emit_line(0, "function %s(%s)" % (name, ", ".join(ps + (["..."] if va else []))))
         budget = [int(4 + 10 * self.size)]
         sc = self.block(1, ps, 0, va, budget)
+        if r.chance(1, 3):
+            sc = self.captured_constants(1, sc)
+        if r.chance(1, 3):
+            self.deep_error(1, sc)
         self.ret(1, sc, va)
         self.emit_line(0, "end")
         self.emit_line(0, "reg(%s)" % name)
@@ -447,7 +530,7 @@ TRUSTED = [
     "Go's makeslice (panic above 2^48 bytes or negative, fatal out-of-memory above what the process can get: the model takes that amount as the parameter lim), "
     "the compiler that produced the code (the model starts from the exported *Code), the VM that runs it (behaviour is compared Go-vs-Go: f against load(string.dump(f)))",
 ]
-THEOREMS_IM = ["C13_unmarshal_marshal", "C13_marshal_injective", "C13_unmarshal_total_no_panic", "C13_load_no_panic",
+THEOREMS_IM = ["C13_unmarshal_alloc_bounded", "C13_unmarshal_marshal", "C13_marshal_injective", "C13_unmarshal_total_no_panic", "C13_load_no_panic",
                "C13_refactor_preserves_lookup", "C13_refactor_idempotent", "C13_refactor_wf",
                "C13_dump_load_dump_stable", "C13_compiled_dump_is_fixed_point", "C13_marshal_charge"]
 
@@ -845,6 +928,11 @@ def run(tier, seed):
                     ck.count("const:float-special-or-denormal")
                 if k[0] == "S" and b"\0" in k[1]:
                     ck.count("const:string-with-NUL")
+            ncell = sum(1 for o in tree[3] if loads_k(o) and (o >> 26) & 1)
+            if ncell:
+                ck.count("closure:with-K-load-into-cell-register")
+                ck.count("ops:K-load-into-cell-register", ncell)
+                ck.count("ops:closure-load-into-cell-register", sum(1 for o in tree[3] if is_closure_k(o) and (o >> 26) & 1))
             u = unit_cache[i][p["idx"]] if p["idx"] >= 0 else None
             if u and any(loads_k(a) and (a & 0xFFFF) != (b & 0xFFFF) for a, b in zip(u[3], tree[3])):
                 ck.count("closure:renumbered")
@@ -861,6 +949,8 @@ def run(tier, seed):
                               "dump": p["d1"][:4000], "theorems": ["C13_dump_load_dump_stable", "C13_refactor_preserves_lookup"]})
         # IM-level
         mu, mt, mm = model[3 * n].split(" "), model[3 * n + 1].split(" "), model[3 * n + 2].split(" ")
+        if mm[-1].startswith("A"):
+            mm.pop()
         d = None
         if mu[1] != "ok" or mu[2] != p["d1"]:
             d = "bytes of string.dump differ from marshal(refactor_unit(export f))"
@@ -899,6 +989,7 @@ def run(tier, seed):
         nev = tr[0].count(";") + 1 if tr and tr[0] != "T:-" else 0
         ck.count("behaviour:calls-with-error", tr[0].count(",b0,") if tr else 0)
         ck.count("behaviour:events", nev)
+        ck.count("behaviour:error-values-naming-the-chunk", tr[0].count("s" + b"chunk:".hex()) if tr else 0)
         ck.case("beh:" + chunks[i], nev > 0)
         if ka != kb:
             beh_diff += 1
@@ -1006,6 +1097,8 @@ def run(tier, seed):
         if n >= len(mout) or n >= len(uout) or n >= len(lout):
             break
         mo, uo, lo = mout[n].split(" "), uout[n].split(" "), lout[n].split(" ")
+        m_al = int(mo.pop()[1:], 16) if mo[-1].startswith("A") else None
+        g_al = int(uo.pop()[1:], 16) if uo[-1].startswith("A") and uo[1] in ("val", "nil", "err") else None
         if uo[1] == "SKIPPED" or lo[1] == "SKIPPED":
             ck.count("malformed:not-executed-after-repeated-crashes")
             continue
@@ -1040,6 +1133,21 @@ def run(tier, seed):
                 else:
                     ck.count("malformed:gray-zone-allocation-survived")
             continue
+        # C06 clause "loading charges before allocating": measured Go allocation of the call against
+        # the proved bound 48 * used + 163 (C13_unmarshal_alloc_bounded) and against the model's total
+        bud_n = int(ulines[n].split(" ")[2], 16)
+        if g_al is not None and bud_n != 0 and uo[1] in ("val", "nil", "err"):
+            used_n = int(uo[3] if uo[1] in ("val", "err") else uo[2], 16)
+            ck.count("alloc:measured-calls")
+            ck.count("alloc:bytes-per-budget-unit:<=%d" % (1 if g_al <= used_n else 4 if g_al <= 4 * used_n else 16 if g_al <= 16 * used_n else 48 if g_al <= 48 * used_n else 999))
+            if g_al > 48 * used_n + 163 + 256:
+                mal_fail += 1
+                s_fail += 1
+                if mal_fail <= 3:
+                    ck.violation("UnmarshalConst allocated %d bytes for a used budget of %d (bound 48*used+163): loading allocates before it charges" % (g_al, used_n),
+                                 {"kind": "Go!=S", "engine": "marshal", "stream": m.hex(), "budget": "%x" % bud_n, "impl": uout[n][:600], "theorem": "C13_unmarshal_alloc_bounded"})
+            elif m_al is not None and g_al > m_al + 256:
+                im_diffs.append(("UnmarshalConst allocated %d bytes, the model's accumulated allocation is %d" % (g_al, m_al), None, None, ulines[n][:6000]))
         # the model predicts an ordinary outcome
         if uo[1] in ("CRASH", "HANG", "gopanic"):
             mal_fail += 1
